@@ -28,6 +28,7 @@ type Ctx struct {
 	implIfaces  map[string]types.Type
 	constComps  map[string]bool // components that never change (constglobal)
 	lazy        []lazyAxiom
+	nbase       int
 	prog     *Program
 }
 
@@ -54,6 +55,7 @@ func NewCtx(p *Program) *Ctx {
 		"(declare-fun bq.rawhead (BSeq (_ BitVec 64)) GStr)",
 		"(declare-fun bq.rawtail (BSeq (_ BitVec 64)) BSeq)",
 	)
+	c.nbase = len(c.decls)
 	// axioms that are only emitted when the query mentions their symbols
 	c.lazy = append(c.lazy,
 		lazyAxiom{"gs.len", "(assert (forall ((s GStr)) (! (bvsge (gs.len s) #x0000000000000000) :pattern ((gs.len s)))))"},
@@ -362,8 +364,10 @@ func (c *Ctx) Box(t types.Type, v string) string {
 	}
 	s := c.Sort(t)
 	name := "box." + sanitize(typeKey(t))
-	c.Decl(name, fmt.Sprintf("(declare-fun %s (%s) Int)\n(declare-fun %s (Int) %s)\n(assert (forall ((x %s)) (! (= (%s (%s x)) x) :pattern ((%s x)))))",
-		q(name), s, q("un"+name), s, s, q("un"+name), q(name), q(name)))
+	if !c.declSet[name] {
+		c.Decl(name, fmt.Sprintf("(declare-fun %s (%s) Int)\n(declare-fun %s (Int) %s)", q(name), s, q("un"+name), s))
+		c.lazy = append(c.lazy, lazyAxiom{q("un" + name), fmt.Sprintf("(assert (forall ((x %s)) (! (= (%s (%s x)) x) :pattern ((%s x)))))", s, q("un"+name), q(name), q(name))})
+	}
 	return fmt.Sprintf("(%s %s)", q(name), v)
 }
 
